@@ -1,4 +1,8 @@
 mod term;
+mod c14;
+mod c08;
+mod c15;
+mod c24;
 mod c30;
 mod c25;
 mod c12;
@@ -53,6 +57,10 @@ fn main() {
         "C12" => c12::run(seed, n, &mut out),
         "C25" => c25::run(seed, n, &mut out),
         "C30" => c30::run(seed, n, &mut out),
+        "C24" => c24::run(seed, n, &mut out),
+        "C15" => c15::run(seed, n, &mut out),
+        "C08" => c08::run(seed, n, &mut out),
+        "C14" => c14::run(seed, n, &mut out),
         _ => { eprintln!("unknown property {}", prop); std::process::exit(2); }
     }
 }
